@@ -84,7 +84,7 @@ def sample_block(r: int, c: int, seed_val: int, n: int) -> Counter:
     cnt: Counter = Counter()
     shape = np.array([r, c])
     for _ in range(n):
-        m = LatticeMazeGenerators.gen_wilson(shape)
+        m = core.call("C19:gen_wilson", LatticeMazeGenerators.gen_wilson, shape)
         cl = np.asarray(m.connection_list)
         if cl.shape != (2, r, c):
             raise Violation("C19:shape", f"{cl.shape} for {r}x{c}")
@@ -136,7 +136,7 @@ def sample_edge_block(r: int, c: int, seed_val: int, n: int):
     X = np.zeros((n, len(E)), dtype=np.int64)
     shape = np.array([r, c])
     for k in range(n):
-        m = LatticeMazeGenerators.gen_wilson(shape)
+        m = core.call("C19:gen_wilson", LatticeMazeGenerators.gen_wilson, shape)
         cl = np.asarray(m.connection_list)
         if cl.shape != (2, r, c):
             raise Violation("C19:shape", f"{cl.shape} for {r}x{c}")
@@ -236,6 +236,73 @@ def _edge_task(r, c, sd, n):
         return ("violation", v.sig, v.msg, sd)
 
 
+_DATASET_CODE = r"""
+import sys, json, warnings
+warnings.filterwarnings("ignore")
+sys.path.insert(0, {verif!r})
+from collections import Counter
+import numpy as np
+from maze_dataset import MazeDataset, MazeDatasetConfig
+from maze_dataset.generation.generators import GENERATORS_MAP
+req = json.load(sys.stdin)
+cnt = Counter()
+for sd in req["seeds"]:
+    cfg = MazeDatasetConfig(name="w", grid_n=req["n"], n_mazes=req["per_seed"], seed=sd, maze_ctor=GENERATORS_MAP["gen_wilson"], endpoint_kwargs=req["endpoint"])
+    kw = dict(gen_parallel=True, pool_kwargs=dict(processes=req["procs"])) if req["procs"] else dict()
+    ds = MazeDataset.generate(cfg, **kw)
+    assert len(ds) == req["per_seed"], len(ds)
+    for m in ds.mazes:
+        cnt["".join("1" if b else "0" for b in np.asarray(m.connection_list).reshape(-1).tolist())] += 1
+print("RESULT" + json.dumps(cnt))
+"""
+
+
+def sample_datasets(n: int, seeds, per_seed: int, procs: int, endpoint: dict) -> Counter:
+    """mazes as datasets hand them out (serial, or generated by a pool of `procs` workers), in a fresh top-level interpreter"""
+    import json
+
+    out = core.run_python(_DATASET_CODE.format(verif=core.VERIF_DIR), stdin=json.dumps({"n": n, "seeds": list(seeds), "per_seed": per_seed, "procs": procs, "endpoint": endpoint}), timeout=1500)
+    line = next(ln for ln in out.splitlines() if ln.startswith("RESULT"))
+    return Counter(json.loads(line[len("RESULT"):]))
+
+
+def check_datasets(case: dict):
+    """replay entry for the dataset route"""
+    cnt = sample_datasets(case["n"], case["seeds"], case["per_seed"], case["procs"], case["endpoint"])
+    evaluate(case["n"], case["n"], cnt, f"datasets procs={case['procs']} endpoint={case['endpoint']}")
+    return {"nt": True, "labels": ["datasets"]}
+
+
+def _run_datasets(total: int):
+    def run(seed_val: int):
+        import concurrent.futures
+
+        stats, fails = Stats(), []
+        variants = [("serial", 0, {}), ("serial-deadends", 0, {"deadend_start": True, "deadend_end": True}), ("pool-of-4", 4, {}), ("pool-of-3-deadend-start", 3, {"deadend_start": True})]
+        cases = []
+        for k, (nm, procs, ep) in enumerate(variants):
+            seeds = [int(core.derive_seed(seed_val, "ds", nm, j) % (2**31)) for j in range(4)]
+            cases.append((nm, {"n": 3, "seeds": seeds, "per_seed": total // 4, "procs": procs, "endpoint": ep}))
+        with concurrent.futures.ThreadPoolExecutor(max_workers=len(cases)) as ex:
+            results = list(ex.map(lambda c: sample_datasets(c[1]["n"], c[1]["seeds"], c[1]["per_seed"], c[1]["procs"], c[1]["endpoint"]), cases))
+        summaries = {}
+        for (nm, case), cnt in zip(cases, results):
+            try:
+                summaries[nm] = evaluate(3, 3, cnt, f"datasets:{nm}")
+            except Violation as v:
+                fails.append(Failure("wilson-via-datasets", v.sig, v.msg, case))
+            stats.evaluations += sum(cnt.values())
+            stats.labels[nm] += sum(cnt.values())
+            for t in cnt:
+                stats.nontrivial.add(core.digest(["ds", nm, t]))
+            if len(stats.samples) < 3:
+                stats.samples.append({"variant": nm, **{k: case[k] for k in ("n", "per_seed", "procs", "endpoint")}, "seeds": case["seeds"][:2]})
+        stats.extra["summaries"] = summaries
+        return stats, fails
+
+    return run
+
+
 def check(case: dict):
     """replay entry: re-sample everything the case describes, block by block and pooled"""
     r, c = case["r"], case["c"]
@@ -249,7 +316,10 @@ def check(case: dict):
 
 
 def _block_task(r, c, sd, n):
-    return sample_block(r, c, sd, n)
+    try:
+        return sample_block(r, c, sd, n)
+    except Violation as v:
+        return ("violation", v.sig, v.msg, sd)
 
 
 def _run(total_by_shape: dict, blocks: int):
@@ -276,11 +346,16 @@ def _run(total_by_shape: dict, blocks: int):
         for (r, c), lst in by_shape.items():
             pooled: Counter = Counter()
             case = {"r": r, "c": c, "seeds": [sd for sd, _, _ in lst], "n": lst[0][1]}
+            crashed = [cnt for _, _, cnt in lst if isinstance(cnt, tuple)]
+            if crashed:
+                fails.append(Failure("wilson-uniform", crashed[0][1], crashed[0][2], {"r": r, "c": c, "seeds": [crashed[0][3]], "n": lst[0][1]}))
+                lst = [(sd, n, cnt) for sd, n, cnt in lst if not isinstance(cnt, tuple)]
             try:
                 for sd, n, cnt in lst:
                     evaluate(r, c, cnt, f"seed={sd}")
                     pooled.update(cnt)
-                summaries[f"{r}x{c}"] = evaluate(r, c, pooled, "pooled")
+                if not crashed:
+                    summaries[f"{r}x{c}"] = evaluate(r, c, pooled, "pooled")
             except Violation as v:
                 fails.append(Failure("wilson-uniform", v.sig, v.msg, case))
                 pooled = Counter()
@@ -308,4 +383,5 @@ def subs(tier: str):
     big = ({(4, 4): 32000, (5, 5): 16000, (2, 6): 16000, (6, 3): 16000, (1, 6): 1600, (7, 7): 3200} if q else
            {(4, 4): 1600000, (5, 5): 800000, (2, 6): 800000, (6, 2): 800000, (6, 3): 800000, (3, 7): 800000, (1, 6): 16000, (7, 7): 400000, (10, 10): 100000, (4, 12): 100000})
     return [Sub("wilson-uniform", check, "custom", run=_run(totals, 16 if q else 32)),
-            Sub("wilson-edge-laws", check_edges, "custom", run=_run_edges(big, 16 if q else 32))]
+            Sub("wilson-edge-laws", check_edges, "custom", run=_run_edges(big, 16 if q else 32)),
+            Sub("wilson-via-datasets", check_datasets, "custom", run=_run_datasets(19200 if q else 192000))]
